@@ -108,8 +108,14 @@ namespace Pistache::Http
         bool match_attribute(const char* name, size_t len, StreamCursor& cursor,
                              Cookie* obj, T Cookie::*attr)
         {
+            StreamCursor::Revert revert(cursor);
             if (match_string(name, len, cursor))
             {
+                // the attribute name must end here: "Secured" or "Pathway=.." are extensions
+                if (!cursor.eof() && cursor.current() != '=' && cursor.current() != ';')
+                    return false;
+
+                revert.ignore();
                 AttributeMatcher<T>::match(cursor, obj, attr);
                 cursor.advance(1);
 
